@@ -12,6 +12,7 @@ pub mod c09;
 pub mod c10;
 pub mod c11;
 pub mod c12;
+pub mod c04;
 pub mod c07;
 pub mod c13;
 pub mod c14;
@@ -24,7 +25,7 @@ pub mod c20;
 pub mod common;
 
 pub fn all() -> Vec<Arc<dyn Property>> {
-    vec![Arc::new(c01::C01), Arc::new(c02::C02), Arc::new(c03::C03), Arc::new(c05::C05), Arc::new(c06::C06), Arc::new(c07::C07), Arc::new(c08::C08), Arc::new(c09::C09), Arc::new(c10::C10), Arc::new(c11::C11), Arc::new(c12::C12), Arc::new(c13::C13), Arc::new(c14::C14), Arc::new(c15::C15), Arc::new(c16::C16), Arc::new(c17::C17), Arc::new(c18::C18), Arc::new(c19::C19), Arc::new(c20::C20)]
+    vec![Arc::new(c01::C01), Arc::new(c02::C02), Arc::new(c03::C03), Arc::new(c04::C04), Arc::new(c05::C05), Arc::new(c06::C06), Arc::new(c07::C07), Arc::new(c08::C08), Arc::new(c09::C09), Arc::new(c10::C10), Arc::new(c11::C11), Arc::new(c12::C12), Arc::new(c13::C13), Arc::new(c14::C14), Arc::new(c15::C15), Arc::new(c16::C16), Arc::new(c17::C17), Arc::new(c18::C18), Arc::new(c19::C19), Arc::new(c20::C20)]
 }
 
 pub fn by_id(id: &str) -> Option<Arc<dyn Property>> {
